@@ -219,6 +219,7 @@ def run_coq_cases(prop, header, agree, terms, shard=300, timeout=600):
   os.makedirs(CASES, exist_ok=True)
   for old in glob.glob(os.path.join(CASES, f'{prop}_*')):
     os.remove(old)
+  shard = max(20, min(shard, -(-len(terms) // NPROC)))   # spread the cases over the cores
   shards = [terms[i:i + shard] for i in range(0, len(terms), shard)]
   files = []
   for k, sh in enumerate(shards):
